@@ -174,6 +174,8 @@ type Exec struct {
 	refWrites map[string]map[string]bool // during loop discovery: heap array -> refs it is updated at ("*" = unknown)
 	freshRefs map[string]bool            // during loop discovery: reference terms allocated inside the loop
 	loopRefs  map[string][]Term          // result of the last discovery: per heap array, the loop-invariant refs written
+	lastIter     string // state variable of the visited set of the most recent map iteration
+	lastIterSort string
 }
 
 func (x *Exec) markA(reason string) {
@@ -346,7 +348,53 @@ func (x *Exec) newRef() Term {
 
 // ---- locations --------------------------------------------------------------
 
+// heapWF: in the entry state every reference stored in a heap array points to an
+// allocated object (lies below the entry allocation frontier). Emitted once per array.
+func (x *Exec) heapWF(l *Loc) {
+	if l.Elem == nil || len(l.Path) > 0 || (l.Kind != LField && l.Kind != LBox && l.Kind != LElem) {
+		return
+	}
+	key := "wf:" + l.SV
+	if x.smt.declared[key] {
+		return
+	}
+	x.smt.declared[key] = true
+	x.getSV(l.SV, l.Sort)
+	h0 := x.init[l.SV]
+	a0 := x.init["alloc"]
+	if h0 == "" || a0 == "" {
+		return
+	}
+	var body string
+	sel := "(select " + h0 + " r)"
+	vars := "((r Int))"
+	if l.Kind == LElem {
+		sel = "(select (select " + h0 + " r) i)"
+		vars = "((r Int) (i Int))"
+	}
+	switch l.Elem.Underlying().(type) {
+	case *types.Pointer, *types.Map, *types.Chan:
+		if x.smt.sortOf(l.Elem) == "Slice" {
+			body = "(and (>= (sref " + sel + ") 0) (< (sref " + sel + ") " + a0 + "))"
+		} else {
+			body = "(and (>= " + sel + " 0) (< " + sel + " " + a0 + "))"
+		}
+	case *types.Slice:
+		if isByteSlice(l.Elem) {
+			return
+		}
+		body = "(and (>= (sref " + sel + ") 0) (< (sref " + sel + ") " + a0 + "))"
+	default:
+		return
+	}
+	saved := x.smt.curOwner
+	x.smt.curOwner = -1
+	x.smt.assume("(forall " + vars + " (! " + body + " :pattern (" + sel + ")))")
+	x.smt.curOwner = saved
+}
+
 func (x *Exec) readLoc(l *Loc) Term {
+	x.heapWF(l)
 	var base Term
 	switch l.Kind {
 	case LCell:
